@@ -211,6 +211,9 @@ pub fn check(case: &Case, obs: &mut Obs, which: Which, ctx: &Ctx) -> CheckResult
                 let after: Vec<u64> = sh.st.conns.iter().map(|c| c.conn_id).collect();
                 if before.iter().any(|c| !after.contains(c)) {
                     removed_since_decision = true;
+                    // the previous routing choice is forgotten for good: a datagram that is refused afterwards
+                    // (no usable link) does not bring it back
+                    my_last = None;
                     obs.class("reload-removed-a-link");
                 }
                 if after.iter().any(|c| !before.contains(c)) {
